@@ -213,6 +213,63 @@ def run(tier, replay_file=None):
             srv.close()
         if len(R.violations) >= 20:
             break
+    # 4. requests without the token that arrive WHILE an authorised request is inside its handler on another thread: the
+    #    authorised request is parked at each linearization point of the stepping protocol (StepLock.tla: T, R, W, U) and the
+    #    whole table of protected rules is sent without / with a wrong token at each of these points
+    from .. import sched
+    inflight = 0
+    for kind, body in (("run-steps", {"numberSteps": 2, "settings": {}}), ("run-step", {"settings": {}}), ("begin-session", None)):
+        srv = S.Srv(stop=4, adapter=False, token=TOKEN, base_constants=True)
+        try:
+            srv.start("i1", 500); srv.begin("i1", "base", 0)
+            srv.start("i2", 500)
+            uid = srv.uid("i1")
+            inst = srv.app._instance_manager._instances[uid]["instance"]
+            ctl = sched.Controller(lambda: (bool(inst.is_locked()), 0), anchors=None if kind != "begin-session" else
+                                   [("BPTK_Py.server.bptkServer", "instance.begin_session(", "G"), ("BPTK_Py.bptk", "self.session_state=", "S"),
+                                    ("BPTK_Py.bptk", "self.session_state =", "S")], required={"G"} if kind == "begin-session" else None)
+            def authorised(kind=kind, body=body):
+                cl = srv.app.test_client()
+                b = body if body is not None else {"scenario_managers": ["sm"], "scenarios": ["base"], "equations": ["s", "f", "k"]}
+                r = cl.post("/%s/%s" % (uid, kind), data=json.dumps(b), content_type="application/json", headers={"Authorization": "Bearer " + TOKEN})
+                return r.status_code
+            ctl.spawn("a", authorised)
+            points = 0
+            while ctl.runnable() and points < 40:
+                w = ctl.workers["a"]
+                where = w.parked_at
+                for rule, method in prot:
+                    if method in ("OPTIONS", "HEAD"):
+                        continue
+                    for cname in ("absent", "wrong"):
+                        before = snapshot(srv)
+                        try:
+                            status = send(srv, rule, method, srv.uid("i2") if "stop-instance" in rule else uid, CREDS[cname])
+                        except Exception as e:
+                            status = "EXC %s" % type(e).__name__
+                        d = diff(before, snapshot(srv))
+                        inflight += 1
+                        info = {"while": "an authorised %s is in its handler, parked at anchor %s" % (kind, where), "rule": rule, "method": method,
+                                "credential": cname, "status": status}
+                        if not (isinstance(status, int) and status >= 400):
+                            R.violation("request without the token was served", info)
+                        if d:
+                            info["changed"] = d[:4]
+                            R.violation("refused request changed server state", info)
+                    if len(R.violations) >= 20:
+                        break
+                if len(R.violations) >= 20:
+                    break
+                ctl.advance("a")
+                points += 1
+            ctl.run([])
+            if ctl.workers["a"].result != 200:
+                raise common.Machinery("the authorised %s did not complete (%r, %r)" % (kind, ctl.workers["a"].result, ctl.workers["a"].error))
+        finally:
+            srv.close()
+        if len(R.violations) >= 20:
+            break
+    R.cov["refusals_demanded_while_authorised_request_in_flight"] = inflight
     R.sample({"rules": ["%s %s" % (m, r) for r, m in prot][:8], "credentials": CREDS})
     R.assumptions += ["refusal is demanded only for credentials that do not contain the exact token as a space-delimited word",
                       "Flask's automatic OPTIONS response (no handler runs) must change nothing but is not required to be a refusal",
